@@ -360,7 +360,7 @@ Definition plural_count_msg (expected found : nat) : str :=
 
 Definition plural_count_findings (known : option (list str)) (l10nValue : str) : list finding :=
   match known with
-  | Some (_ :: _ as cats) =>
+  | Some ((_ :: _) as cats) =>
       let expected := length cats in
       let found := count_char lit_plural_sep l10nValue + 1 in
       let msg := plural_count_msg expected found in
@@ -436,7 +436,7 @@ Definition escape_findings (raw : str) : result (list finding) :=
   | Ok ms =>
       Ok (flat_map (fun x =>
             match gtext raw g_c06_escape_single x with
-            | Some (_ :: _ as t) =>
+            | Some ((_ :: _) as t) =>
                 if mem_str t known_escape_keys then []
                 else [mkf lit_esc_sev (m_start x) false (lit_esc_msg ++ t) lit_esc_cat]
             | _ => []
@@ -463,7 +463,7 @@ Definition check (c : check_in) : result (list finding) :=
               | Ok r =>
                   (* except PrintfException: refSpecs = [] *)
                   match r with
-                  | SOk (_ :: _ as refSpecs) =>
+                  | SOk ((_ :: _) as refSpecs) =>
                       match check_printf refSpecs (l10n_val c) with
                       | Ok pf => Ok (enc ++ escs ++ pf)
                       | Raise t => Raise t
